@@ -11,7 +11,7 @@ from .base import gen_program, viol, shrink_program
 ID = "C04"
 LEVEL = "exploration"
 TIERS = {"quick": {"cases": 2600, "wall": 110, "min_nontrivial": 6000},
-         "thorough": {"cases": 60000, "wall": 1800, "min_nontrivial": 200000}}
+         "thorough": {"cases": 60000, "wall": 1800, "min_nontrivial": 50000}}
 RULE = ("(a) exhaustive layout enumeration for 14 small statements (<=8 tokens; with label, construct name, character "
         "literals containing & ! and both quote kinds): every token boundary takes every break style in {none, '&', '&' + "
         "leading '&', '&' + trailing comment, '&' + comment line, '&' + blank line + leading '&', blanks around '&'} (all "
